@@ -26,6 +26,7 @@ func init() {
 			{ID: "C15.8", Desc: "no key's file name can be a temporary file's name (Get never reads a file that is being written for another key)", Run: func(c *Ctx) { ruleTempPrefixOutsideAlphabet(c, "C15.8") }, MinSites: 1},
 			{ID: "C15.9", Desc: "temporary names are not shared between processes on one directory", Run: func(c *Ctx) { ruleTempNameOwnProcess(c, "C15.9") }, MinSites: 1},
 			{ID: "C15.10", Desc: "framing fields reach the serialiser as received: a chunked body is stored self-delimiting, so that a cut entry is noticed", Run: func(c *Ctx) { ruleC05_7(c); renameRule(c, "C05.7", "C15.10") }, MinSites: 1},
+			{ID: "C15.11", Desc: "the abandon gate waits for a publishing step that is running", Run: func(c *Ctx) { ruleGateLocksUnconditionally(c, "C15.11") }, MinSites: 1},
 		},
 	})
 }
